@@ -3,7 +3,8 @@ import ZoektModel.C32.Spec
 namespace ZoektModel.C32
 open ZoektModel ZoektModel.Proto
 
-/-! `cleanup <merging 0|1> <now> <assigned ids> index=<files> trash=<files> tmps=<n>`
+/-! `list index=<files>` (listIndexed: ids alive in the index directory), and
+    `cleanup <merging 0|1> <now> <assigned ids> index=<files> trash=<files> tmps=<n>`
     file: `<c|s><key>@<mtime>:<id>.<name>.<tomb>.<date>/…` (`:-` = no repositories), files comma separated, `-` = none.
     Answer / implementation output: `index=<files> trash=<files> tmps=<n>`, files in basename order. -/
 
@@ -43,6 +44,9 @@ def showFiles (l : List File) : String := showList showFile (sortFiles l)
 
 def showDir (d : Dir) : String := s!"index={showFiles d.index} trash={showFiles d.trash} tmps={d.tmps}"
 
+def insertionSortNat (l : List Nat) : List Nat :=
+  l.foldr (fun x acc => (acc.filter (· < x)) ++ x :: (acc.filter (fun y => ¬ y < x))) []
+
 def handle (line : String) : String :=
   let (inp, impl) := splitCase line
   match fields inp with
@@ -60,6 +64,16 @@ def handle (line : String) : String :=
         | none => badCase "impl dir"
       | _ => badCase "impl fields"
     | _, _, _, _ => badCase "fields"
+  | ["list", a] =>
+    -- `listIndexed(indexDir)`: the ids `getShards` finds alive in the index directory; impl output = the ids it returned
+    match (do parseFiles (← dropPrefix? a "index=")) with
+    | some files =>
+      let model := showNatList ((getShards files false).map (·.1))
+      let want := (insertionSortNat ((allIds files).filter (searchable files ·))).eraseDups
+      match natList? impl with
+      | some got => if got == want then answer model else specFail model "listindexed-not-the-alive-repositories"
+      | none => badCase "impl ids"
+    | none => badCase "files"
   | _ => badCase "op"
 
 def main : IO Unit := runLines handle
